@@ -540,6 +540,43 @@ Proof.
     cbn. eapply agree_incl; eassumption.
 Qed.
 
+Lemma eval_bool_lit : forall n s mu C b r, eval N P n s mu C (EBool b) = ROk r -> r = (VBool b, mu).
+Proof. intros n s mu C b r H. destruct n; [discriminate|]. rewrite eval_S in H. unfold eval_body in H. inversion H. reflexivity. Qed.
+
+Lemma exec_if1_lit : forall n s mu C b body o mu', exec N P n s mu C (SIf1 (EBool b) body) = ROk (o, mu') ->
+  if b then XB s mu C body o mu' else (o = ONormal s /\ mu' = mu).
+Proof.
+  intros n s mu C b body o mu' H. destruct n; [discriminate|]. rewrite exec_S in H. unfold exec_body in H.
+  destruct (rbind_ok _ _ _ _ _ H) as ([vc m1] & E1 & H1). apply eval_bool_lit in E1. inversion E1; subst. cbn [as_bool rbind] in H1.
+  destruct b; [exists n; exact H1 | inversion H1; auto].
+Qed.
+
+Lemma exec_if_lit : forall n s mu C b t f o mu', exec N P n s mu C (SIf (EBool b) t f) = ROk (o, mu') ->
+  XB s mu C (if b then t else f) o mu'.
+Proof.
+  intros n s mu C b t f o mu' H. destruct n; [discriminate|]. rewrite exec_S in H. unfold exec_body in H.
+  destruct (rbind_ok _ _ _ _ _ H) as ([vc m1] & E1 & H1). apply eval_bool_lit in E1. inversion E1; subst. cbn [as_bool rbind] in H1.
+  exists n. destruct b; exact H1.
+Qed.
+
+Lemma exec_while_false : forall n s mu C body o mu', exec N P n s mu C (SWhile (EBool false) body) = ROk (o, mu') ->
+  o = ONormal s /\ mu' = mu.
+Proof.
+  intros n s mu C body o mu' H. destruct n; [discriminate|]. rewrite exec_S in H. unfold exec_body in H.
+  destruct (rbind_ok _ _ _ _ _ H) as ([vc m1] & E1 & H1). apply eval_bool_lit in E1. inversion E1; subst. cbn [as_bool rbind] in H1.
+  inversion H1; auto.
+Qed.
+
+Lemma splice : forall body r n s mu C o1 m1 o mu',
+  XB s mu C body o1 m1 ->
+  match o1 with ONormal s1 => exec_block N P n s1 m1 C r | OReturn v => ROk (OReturn v, m1) end = ROk (o, mu') ->
+  XB s mu C (body ++ r) o mu'.
+Proof.
+  intros body r n s mu C o1 m1 o mu' X H. destruct o1 as [s1|v1].
+  - eapply XB_app; [exact X | exists n; exact H].
+  - inversion H; subst. apply XB_app_ret. exact X.
+Qed.
+
 Definition dce_at (d : nat) : Prop :=
   (forall Lout b b' Lin, vd d Lout b b' = Some Lin -> forall n s s' mu C o mu', agree Lin s s' ->
      exec_block N P n s mu C b = ROk (o, mu') -> exists o', XB s' mu C b' o' mu' /\ orel Lout o o') /\
@@ -584,45 +621,18 @@ Proof.
         eapply agree_drop; eassumption. }
       apply orelse_some in Hv. destruct Hv as [Hv|[_ Hv]].
       { (* spliced *)
-        assert (ONE : forall c body, st = SIf1 c body \/ st = SWhile c body -> c = EBool false ->
-                  vd d Lout r b' = Some Lin -> exists o', XB s' mu C b' o' mu' /\ orel Lout o o').
-        { intros c body Hst -> V1. destruct n; [destruct Hst; subst; discriminate|].
-          assert (o1 = ONormal s /\ m1 = mu) as [-> ->].
-          { destruct Hst; subst st; rewrite exec_S in E1; unfold exec_body in E1; destruct n; try discriminate;
-              rewrite eval_S in E1; cbn in E1; inversion E1; auto. }
-          eapply (IHd _ _ _ _ V1 (S n) s s' mu C o mu'); eassumption. }
-        assert (APP : forall c body, (st = SIf1 c body \/ exists oth, st = SIf c body oth \/ st = SIf (ENot c) oth body /\ False) -> c = EBool true ->
-                  vd d Lout (body ++ r) b' = Some Lin -> exists o', XB s' mu C b' o' mu' /\ orel Lout o o').
-        { intros c body Hst -> V1.
-          assert (XBsrc : XB s mu C (body ++ r) o mu').
-          { assert (E1b : exec_block N P n s mu C body = ROk (o1, m1)).
-            { destruct Hst as [->|(oth & [->|[_ []]])]; destruct n; try discriminate;
-                rewrite exec_S in E1; unfold exec_body in E1; destruct n; try discriminate;
-                rewrite eval_S in E1; cbn in E1;
-                (apply (exec_block_mono_ok N P n); [exact E1 | lia]). }
-            destruct o1 as [s1|v1].
-            - eapply XB_app; [exists n; exact E1b | exists n; exact H1].
-            - inversion H1; subst. eapply XB_app_ret. exists n; exact E1b. }
-          destruct XBsrc as (n2 & X2).
-          eapply (IHd _ _ _ _ V1 n2 s s' mu C o mu'); eassumption. }
+        assert (CONT : forall b2, XB s mu C b2 o mu' -> vd d Lout b2 b' = Some Lin ->
+                  exists o', XB s' mu C b' o' mu' /\ orel Lout o o').
+        { intros b2 (n2 & X2) V2. eapply (IHd _ _ _ _ V2 n2 s s' mu C o mu'); eassumption. }
         destruct st; try discriminate Hv.
-        - (* SIf1 *) destruct c; try discriminate Hv. destruct b.
-          + eapply (APP (EBool true) body); [left; reflexivity | reflexivity | exact Hv].
-          + eapply (ONE (EBool false) body); [left; reflexivity | reflexivity | exact Hv].
-        - (* SIf *) destruct c; try discriminate Hv. destruct b.
-          + eapply (APP (EBool true) ift); [right; exists iff; left; reflexivity | reflexivity | exact Hv].
-          + (* if False: t else: f  ==>  f ++ r *)
-            assert (XBsrc : XB s mu C (iff ++ r) o mu').
-            { assert (E1b : exec_block N P n s mu C iff = ROk (o1, m1)).
-              { destruct n; try discriminate. rewrite exec_S in E1; unfold exec_body in E1. destruct n; try discriminate.
-                rewrite eval_S in E1; cbn in E1. apply (exec_block_mono_ok N P n); [exact E1 | lia]. }
-              destruct o1 as [s1|v1].
-              - eapply XB_app; [exists n; exact E1b | exists n; exact H1].
-              - inversion H1; subst. eapply XB_app_ret. exists n; exact E1b. }
-            destruct XBsrc as (n2 & X2).
-            eapply (IHd _ _ _ _ Hv n2 s s' mu C o mu'); eassumption.
+        - (* SIf1 *) destruct c; try discriminate Hv. pose proof (exec_if1_lit _ _ _ _ _ _ _ _ E1) as X. destruct b.
+          + eapply CONT; [|exact Hv]. eapply splice; eassumption.
+          + destruct X as [-> ->]. eapply CONT; [exists n; exact H1 | exact Hv].
+        - (* SIf *) destruct c; try discriminate Hv. pose proof (exec_if_lit _ _ _ _ _ _ _ _ _ E1) as X. destruct b.
+          + eapply CONT; [|exact Hv]. eapply splice; eassumption.
+          + eapply CONT; [|exact Hv]. eapply splice; eassumption.
         - (* SWhile *) destruct c; try discriminate Hv. destruct b; try discriminate Hv.
-          eapply (ONE (EBool false) body); [right; reflexivity | reflexivity | exact Hv]. }
+          destruct (exec_while_false _ _ _ _ _ _ _ E1) as [-> ->]. eapply CONT; [exists n; exact H1 | exact Hv]. }
       (* skip_pass *)
       eapply SKIP; [exact Hv | exact HA].
   - (* a kept statement *)
@@ -645,7 +655,6 @@ Proof.
       assert (I2 : incl (flat_map (efv []) idx) (x :: flat_map (efv []) idx ++ efv [] e ++ L1)).
       { intros z Hz. right. apply in_or_app. left. exact Hz. }
       pose proof (eval_eq_agree n _ s s' mu C e e0 _ Be HA I1 E1) as E1'.
-      rewrite <- (HA x (or_introl eq_refl)).
       destruct (env_get s x) as [cur|] eqn:Gx; [|discriminate].
       destruct (rbind_ok _ _ _ _ _ H1) as (m2 & E2 & H2). inversion H2; subst. clear H1 H2.
       rewrite (index_walk_agree idx n _ s s' m1 C cur v HA I2) in E2.
@@ -758,7 +767,7 @@ Proof.
       destruct (rbind_ok _ _ _ _ _ H) as ([vc m1] & E1 & H1). clear H.
       pose proof (eval_eq_agree n _ s s' mu CReal e e0 _ Be HA (incl_app_l2 _ _) E1) as E1'.
       destruct vc; try discriminate.
-      destruct (IHd _ _ _ _ Vb n _ (match x with Some x0 => env_set s' x0 (VCtx c) | None => s' end) m1 c o mu') as (o' & X & R); [|exact H1|].
+      destruct (IHd _ _ _ _ Vb n (match x with Some x0 => env_set s x0 (VCtx c) | None => s end) (match x with Some x0 => env_set s' x0 (VCtx c) | None => s' end) m1 c o mu') as (o' & X & R); [|exact H1|].
       { destruct x as [x|]; cbn [ovar] in *.
         - intros z Hz. destruct (string_dec x z) as [->|Hne].
           + rewrite !env_get_set_same. reflexivity.
